@@ -70,6 +70,8 @@ def cases(tier):
                 if n <= 3:
                     yield ("packed32", op, n, lat, pi, tier)  # single-precision inputs
                     yield ("packedint", op, n, "I3M", pi, tier)  # fuzzy values held in integer arrays (-1, 0, +1: e.g. a binary layer)
+                    if n >= 2:
+                        yield ("packedmix", op, n, "mix", pi, tier)
         if tier == "thorough" and op != "FuzzyNot":
             for pi, _ in enumerate(_presets(op, 4, tier)):
                 yield ("packed", op, 4, "F9M", pi, tier)
@@ -122,8 +124,39 @@ def _cell_inputs(arrays_cells, msg):
         return "?"
 
 
+def _packedmix(case):
+    """inputs of MIXED element type: every non-uniform assignment of {integer, float} to the inputs, integer layers over {-1, 0, 1, MISSING},
+    float layers over F5 + MISSING"""
+    _, op, n, _lat, pi, tier = case
+    params = _presets(op, n, tier)[pi]
+    viols = []
+    counters = {"judged": 0, "unspecified": 0}
+    outcomes = {}
+    evals = nontriv = 0
+    for dts in itertools.product(("int", "float"), repeat=n):
+        if len(set(dts)) == 1:
+            continue
+        lats = [_lattice("I3M") if d == "int" else _lattice("F5M") for d in dts]
+        tuples = list(itertools.product(*lats))
+        cols = [[t[i] for t in tuples] for i in range(n)]
+        arrays = [D.mk_array(c, dtype=d) for c, d in zip(cols, dts)]
+        res = D.execute(op, arrays, params)
+        tag = {"op": op, "n": n, "params": params, "dtypes": list(dts)}
+        nv = len(viols)
+        oc = _judge(op, params, cols, res, viols, tag, counters)
+        for v in viols[nv:]:
+            v["key"] += ":mixed-element-types"
+        outcomes["%s:mix:%s" % (op, oc)] = outcomes.get("%s:mix:%s" % (op, oc), 0) + 1
+        evals += len(tuples)
+        nontriv += sum(1 for t in tuples if any(x is not None for x in t))
+    return {"evals": max(evals, 1), "nontrivial": nontriv, "judged": counters["judged"], "unspecified": counters["unspecified"], "viols": viols[:30], "outcomes": outcomes,
+            "sample": {"op": op, "n": n, "params": params, "dtypes": "every non-uniform int/float assignment"}}
+
+
 def _packed(case):
     kind_, op, n, lat, pi, tier = case
+    if kind_ == "packedmix":
+        return _packedmix(case)
     dt_ = "float32" if kind_ == "packed32" else "int" if kind_ == "packedint" else "float"
     L = _lattice(lat)
     params = _presets(op, n, tier)[pi]
@@ -306,7 +339,7 @@ def _small(case):
 
 def run(case):
     case = tuple(case)
-    if case[0] in ("packed", "packed32", "packedint"):
+    if case[0] in ("packed", "packed32", "packedint", "packedmix"):
         return _packed(case)
     if case[0] == "laws":
         return _laws(case)
